@@ -785,3 +785,21 @@ def gen_c20(r, knobs=None):
 def gen_c02zone(r, knobs=None):
     """known-finding zone F4: parameter objects that store a python set (AutoParameterObject repr follows set iteration order)"""
     return gen_c02(r, {'families': ['objset', 'objset', 'int', 'str'], 'n_pipes': (1, 2), 'max_params': 2})
+
+
+def gen_c18zone(r, knobs=None):
+    """known-finding zone F11: name mode, config names that differ only after a dot, directory-type results"""
+    kn = {'kinds': ['dir', 'cont', 'listnp', 'dict'], 'n_roots': (1, 1), 'n_pipes': (1, 2), 'p_override': 0.0, 'p_twin': 0.0}
+    world = gen.gen_world(r, kn)
+    b = B(world, r)
+    b.proc(hs=0)
+    form = 'yaml' if world.get('no_json') else r.choice(['mem', 'json'])
+    for sfx in r.sample(['', '.v2', '.final'], 2):
+        cid = b.build(0, {'form': form, 'name_suffix': sfx}, pmode=False)
+        for n in b.names(cid):
+            b.req(cid, n)
+    for sfx in ['', '.v2', '.final']:
+        cid = b.build(0, {'form': form, 'name_suffix': sfx}, pmode=False)
+        b.op(op='insp', cid=cid, kind='run_info')
+        b.op(op='insp', cid=cid, kind='log')
+    return b.scenario()
